@@ -8,6 +8,7 @@ Rules compare shapes of code; several spellings of the same behaviour must there
     N10 X = p if c else q  /  return p if c else q  ->  the if-statement it abbreviates
     N12 [e(k) for k in (c0, c1)]  ->  [e(c0), e(c1)]                   (literal tuple / list of constants)
     N13 X = []; for T in IT: X.append(E)  ->  X = [E for T in IT]      (adjacent; also with one `if C:` around the append; T not read elsewhere)
+    N16 X = a.b.c; if X is None: X = F  ->  if a.b.c is not None: X = a.b.c else: X = F     (fetch-then-default)
     N15 x = a.b.c; ...x...  ->  ...a.b.c...                             (x a single-assignment alias of a pure attribute chain whose base / prefixes are not reassigned)
     N14 np.zeros(shape=s) -> np.zeros(s); np.full(fill_value=c, shape=s) -> np.full(s, c); positional dtype -> dtype=   (numpy constructors in one spelling)
     N7  X = E; <statement reading X once>  ->  <statement with E>       (X bound once and read once; adjacent statements; applied repeatedly)
@@ -220,6 +221,9 @@ class _Passthrough:
     def _append_loop(self, st, nxt):
         return None
 
+    def _fetch_default(self, st, nxt):
+        return None
+
     def block_done(self, stmts):
         return _Stmts.block(self, stmts)
 
@@ -259,6 +263,11 @@ class _Stmts:
         i = 0
         while i < len(body):
             st = body[i]
+            # N16: X = a.b.c; if X is None: X = F   ->   if a.b.c is not None: X = a.b.c  else: X = F      (fetch-then-default; a.b.c a pure attribute chain)
+            dflt = self._fetch_default(st, body[i + 1] if i + 1 < len(body) else None)
+            if dflt is not None:
+                st = dflt
+                i += 1
             # N13: X = []; for T in IT: X.append(E)   ->   X = [E for T in IT]      (also with one `if C:` around the append)
             comp = self._append_loop(st, body[i + 1] if i + 1 < len(body) else None)
             if comp is not None:
@@ -323,6 +332,23 @@ class _Stmts:
                     return out[:k] + [new_if] + st.body
             i += 1
         return out
+
+    def _fetch_default(self, st, nxt):
+        import copy
+        if not (isinstance(st, ast.Assign) and len(st.targets) == 1 and isinstance(st.targets[0], ast.Name) and _chain(st.value) is not None):
+            return None
+        x = st.targets[0].id
+        if not (isinstance(nxt, ast.If) and not nxt.orelse and len(nxt.body) == 1 and isinstance(nxt.body[0], ast.Assign) and len(nxt.body[0].targets) == 1
+                and isinstance(nxt.body[0].targets[0], ast.Name) and nxt.body[0].targets[0].id == x):
+            return None
+        t = nxt.test
+        if not (isinstance(t, ast.Compare) and len(t.ops) == 1 and isinstance(t.ops[0], ast.Is) and isinstance(t.left, ast.Name) and t.left.id == x
+                and isinstance(t.comparators[0], ast.Constant) and t.comparators[0].value is None):
+            return None
+        if _names(nxt.body[0].value, x):
+            return None
+        test = ast.copy_location(ast.Compare(left=copy.deepcopy(st.value), ops=[ast.IsNot()], comparators=[ast.Constant(value=None)]), t)
+        return ast.copy_location(ast.If(test=test, body=[st], orelse=[nxt.body[0]]), st)
 
     def _append_loop(self, st, nxt):
         if not (isinstance(st, ast.Assign) and len(st.targets) == 1 and isinstance(st.targets[0], ast.Name) and isinstance(st.value, ast.List) and not st.value.elts):
